@@ -3,6 +3,7 @@ use crate::core::Clause;
 
 pub mod c02;
 pub mod c03;
+pub mod c04;
 pub mod c05;
 pub mod c06;
 pub mod c15;
@@ -14,6 +15,7 @@ pub fn clauses(property: &str) -> Vec<Clause> {
     match property {
         "C02" => c02::clauses(),
         "C03" => c03::clauses(),
+        "C04" => c04::clauses(),
         "C05" => c05::clauses(),
         "C06" => c06::clauses(),
         "C15" => c15::clauses(),
@@ -25,6 +27,7 @@ pub fn property_rule(property: &str) -> String {
     match property {
         "C02" => "windowed view run in exact arithmetic (and f64) vs the batch definition over exactly the last N raw values, every step".into(),
         "C03" => "two runs of the same view on histories with different prefixes and a common suffix agree once K suffix values are consumed".into(),
+        "C04" => "Sma / Ema / Alma: span bounds, constant reproduction, monotonicity, affine equivariance, EMA recurrence, ALMA kernel definition".into(),
         "C05" => "Rsi / MyRSI at Q and f64 vs gains and losses over the N most recent values; negation relation".into(),
         "C06" => "CTI / NET / CoG at Q and f64 vs Pearson r, Kendall tau, CoG formula on full windows; negation and rank-invariance relations".into(),
         "C15" => "no unwind out of update()/last() for any constructed view, both cargo profiles".into(),
@@ -45,6 +48,10 @@ pub fn property_assumptions(property: &str) -> Vec<String> {
         "C03" => {
             v.push("K table as in the statement (N; N+1 for Rsi/MyRSI/Roc; 2N for Alma; N+M-1 for PFE over Sma(M), N+2M-1 over Alma(M))".into());
             v.push("f64 leg only for views whose floating-point residue is bounded by 1e-9 x magnitude (running sums of inputs or recomputation from the stored window); the ratio views (Welford std, Vst, Vsct, Rsi, MyRSI) are decided in Q and their rounding residue belongs to C16".into());
+        }
+        "C04" => {
+            v.push("admissible parameters: Ema alpha in (0, N+1] (weight in (0,1]); Alma sigma in [0.5, 12], offset in [0, 1]".into());
+            v.push("Alma's weights are evaluated with the exact scalar's exp (2^-192) on both sides; transcendental accuracy of f64::exp is inside the 1e-9 tolerance of the f64 leg".into());
         }
         "C05" => {
             v.push("MyRSI while the stream has been flat from its first value: no previous output exists and the statement fixes no value (exempt, counted)".into());
